@@ -1,6 +1,7 @@
 import OsmVerif.Oracle.C10
 import OsmVerif.Oracle.C18
 import OsmVerif.Oracle.C13
+import OsmVerif.Oracle.C15
 /-! Line-protocol driver: one case per input line `<Cxx> <op> <payload…>`, one output line each. -/
 open OsmVerif.Oracle
 
@@ -9,6 +10,7 @@ def dispatch (line : String) : String :=
   | "C10" :: rest => C10.handle rest
   | "C18" :: rest => C18.handle rest
   | "C13" :: rest => C13.handle rest
+  | "C15" :: rest => C15.handle rest
   | _ => "bad-op"
 
 partial def loop (h : IO.FS.Stream) (out : IO.FS.Stream) : IO Unit := do
